@@ -399,7 +399,8 @@ def write_evidence(ctx, level, nviol, known, extra=None):
     samples = samples[:40] or [{"sub": "none", "case": "no case was executed"}]
     cov = {
         "evaluations": tot.ev,
-        "distinct_nontrivial": tot.distinct,
+        # keys are only unique within a sub-check: the total is the sum of the sub-check counts
+        "distinct_nontrivial": sum(ctx.subs[n].distinct for n in ctx.order),
         "rule": ctx.rule,
         "samples": samples,
         "exhaustive": bool(tot.exhaustive and not tot.caps),
